@@ -372,6 +372,9 @@ func stress(out string) {
 	close(stop)
 	wg.Wait()
 	cancel()
-	b, _ := json.Marshal(map[string]any{"handshakes_ok": ok, "handshakes_with_mismatching_key": mismatch, "handshakes_other": other, "updates": n})
+	sok1, sf1 := straddle(6, "inplace")
+	sok2, sf2 := straddle(6, "rename")
+	b, _ := json.Marshal(map[string]any{"handshakes_ok": ok, "handshakes_with_mismatching_key": mismatch, "handshakes_other": other, "updates": n,
+		"straddling_handshakes_ok": sok1 + sok2, "straddling_failures": append(sf1, sf2...)})
 	os.WriteFile(out, b, 0o644)
 }
